@@ -1,0 +1,111 @@
+//go:build verif
+
+// Contracts for package documentstore, read by /verif/govc. Comments only.
+package documentstore
+
+// isopD(E, j, k): entry j of the listing E is an operation on document key k — a member of a batch put,
+// or a single put / delete with a non-empty key.
+//@ spec func inBatch(E Slice<Iface>, j Int, k Str) Bool = exists d Int :: 0 <= d && d < opNDocs(E[j]) && opDocKey(E[j], d) == k
+//@ spec func isopD(E Slice<Iface>, j Int, k Str) Bool = (opKind(E[j]) == "PUTALL" && inBatch(E, j, k)) || (opKind(E[j]) != "PUTALL" && opHasKey(E[j]) && opKey(E[j]) == k && k != "")
+// effD(E, w, k, present, value): what operation w leaves for key k
+//@ spec func effD(E Slice<Iface>, w Int, k Str, present Bool, value Slice<Int>) Bool = (opKind(E[w]) == "PUTALL" ==> present && (exists d Int :: 0 <= d && d < opNDocs(E[w]) && opDocKey(E[w], d) == k && value == opDocVal(E[w], d))) && (opKind(E[w]) == "PUT" ==> present && value == opValue(E[w])) && (opKind(E[w]) == "DEL" ==> !present)
+
+// UpdateIndex: the index equals the last-writer-wins replay of the listing, batch members included.
+//@ func (*documentIndex).UpdateIndex
+//@   props C07 C01
+//@   flag nilcalls
+//@   requires oplog != nil && i.index != nil
+//@   ghost E := valsOf(oplog)
+//@   ghost n := len(valsOf(oplog))
+//@   requires forall j Int :: 0 <= j && j < n ==> (E[j] != nil ==> ref(E[j]) != 0)
+//@   requires forall j Int :: 0 <= j && j < n && opOK(E[j]) && opKind(E[j]) != "PUTALL" && opHasKey(E[j]) && opKey(E[j]) != "" ==> opKind(E[j]) == "PUT" || opKind(E[j]) == "DEL"
+//@   requires forall j Int, d1 Int, d2 Int :: 0 <= j && j < n && 0 <= d1 && d1 < d2 && d2 < opNDocs(E[j]) ==> opDocKey(E[j], d1) != opDocKey(E[j], d2)
+//@   requires forall k Str :: (k in i.index) ==> (exists j Int :: 0 <= j && j < n && isopD(E, j, k))
+//@   loop 1 invariant len(entries) == n && size == n && entries == E
+//@   loop 1 invariant forall j Int :: n - idx <= j && j < n ==> opOK(E[j])
+//@   loop 1 invariant forall k Str :: (k in handled) <==> (exists j Int :: n - idx <= j && j < n && isopD(E, j, k))
+//@   loop 1 invariant forall k Str :: !(k in handled) ==> ((k in i.index) == old(k in i.index)) && i.index[k] == old(i.index[k])
+//@   loop 1 invariant forall k Str :: (k in handled) ==> (exists w Int :: n - idx <= w && w < n && isopD(E, w, k) && (forall j Int :: w < j && j < n ==> !isopD(E, j, k)) && effD(E, w, k, k in i.index, i.index[k]))
+//@   loop 1.1 ghost H0 := dom(handled)
+//@   loop 1.1 ghost D0 := dom(i.index)
+//@   loop 1.1 ghost V0 := mapval(i.index)
+//@   loop 1.1 ghost p := n - idx - 1
+//@   loop 1.1 invariant forall k Str :: (k in handled) <==> (H0[k] || (exists d Int :: 0 <= d && d < $i && opDocKey(E[p], d) == k))
+//@   loop 1.1 invariant forall k Str :: (H0[k] || !(exists d Int :: 0 <= d && d < $i && opDocKey(E[p], d) == k)) ==> (k in i.index) == D0[k] && i.index[k] == (D0[k] ? V0[k] : zerov("Slice<Int>"))
+//@   loop 1.1 invariant forall k Str :: !H0[k] && (exists d Int :: 0 <= d && d < $i && opDocKey(E[p], d) == k) ==> (k in i.index) && (exists d Int :: 0 <= d && d < $i && opDocKey(E[p], d) == k && i.index[k] == opDocVal(E[p], d))
+//@   assert @ after loop 1: forall k Str :: !(k in handled) ==> !(exists j Int :: 0 <= j && j < n && isopD(E, j, k))
+//@   assert @ after loop 1: forall k Str :: !(k in handled) ==> !old(k in i.index)
+//@   assert @ after loop 1: forall k Str :: !(k in handled) ==> !(k in i.index)
+//@   ensures result == nil ==> (forall j Int :: 0 <= j && j < n ==> opOK(E[j]))
+//@   ensures result == nil ==> (forall k Str :: (exists j Int :: 0 <= j && j < n && isopD(E, j, k)) ==> (exists w Int :: 0 <= w && w < n && isopD(E, w, k) && (forall j Int :: w < j && j < n ==> !isopD(E, j, k)) && effD(E, w, k, k in i.index, i.index[k])))
+//@   ensures result == nil ==> (forall k Str :: !(exists j Int :: 0 <= j && j < n && isopD(E, j, k)) ==> !(k in i.index))
+
+// Inside this package the store index is the document index (the constructor installs it, and every
+// use is preceded by a checked cast).
+//@ devirt local berty.tech/go-orbit-db/iface.StoreIndex => documentstore.documentIndex
+
+// Keys returns every key of the index exactly once (and never indexes out of range).
+//@ func (*documentIndex).Keys
+//@   props C07
+//@   loop 1 invariant idx == $n && len(keys) == len(i.index)
+//@   loop 1 invariant forall p Int :: 0 <= p && p < idx ==> $seen[keys[p]]
+//@   loop 1 invariant forall k Str :: $seen[k] ==> (exists p Int :: 0 <= p && p < idx && keys[p] == k)
+//@   loop 1 invariant forall p Int, q Int :: 0 <= p && p < q && q < idx ==> keys[p] != keys[q]
+//@   ensures forall p Int :: 0 <= p && p < len(result) ==> (result[p] in i.index)
+//@   ensures forall k Str :: (k in i.index) ==> (exists p Int :: 0 <= p && p < len(result) && result[p] == k)
+//@   ensures forall p Int, q Int :: 0 <= p && p < q && q < len(result) ==> result[p] != result[q]
+//@   modifies nothing
+
+// Get on the index: the stored bytes boxed, nil when the key is absent.
+//@ func (*documentIndex).Get
+//@   props C07
+//@   ensures (key in i.index) ==> typeis(result, "[]byte") && unbox(result, "Slice<Int>") == i.index[key]
+//@   ensures !(key in i.index) ==> result == nil
+//@   modifies nothing
+
+// user-supplied (de)serialisers: deterministic functions of their input (assumed)
+//@ spec func docOf(data Slice<Int>) Iface
+//@ extern field:iface.CreateDocumentDBOptions.Unmarshal as Unmarshal(data, v) (err)
+//@   requires v != nil
+//@   ensures err == nil ==> cell(v, "Iface") == docOf(data)
+//@   modifies "C:Iface"
+//@ extern field:iface.CreateDocumentDBOptions.ItemFactory as ItemFactory() (v)
+//@   modifies nothing
+
+// matchK(k, K, ci, pm): index key k matches the (normalised) search key K under the options
+//@ spec func normK(k Str, ci Bool) Str = ci ? pcall("strings.ToLower", k) : k
+//@ spec func matchK(k Str, K Str, ci Bool, pm Bool) Bool = pm ? pcall("strings.Contains", normK(k, ci), K) : normK(k, ci) == K
+
+// Get (search keys without spaces): exactly the documents whose key matches, decoded from the current view.
+//@ func (*orbitDBDocumentStore).Get
+//@   props C07
+//@   flag nilcalls
+//@   requires o.docOpts != nil && typeis(o.BaseStore.index, "*documentstore.documentIndex") && ref(o.BaseStore.index) != 0
+//@   requires !pcall("strings.Contains", key, " ")
+//@   ghost X := ptr(o.BaseStore.index, "documentstore.documentIndex").index
+//@   ghost ci := opts != nil && opts.CaseInsensitive
+//@   ghost pm := opts != nil && opts.PartialMatches
+//@   ghost K := normK(key, ci)
+//@   loop 1 invariant forall q Int :: 0 <= q && q < len(documents) ==> (exists p Int :: 0 <= p && p < $i && matchK($coll[p], K, ci, pm) && documents[q] == docOf(X[$coll[p]]))
+//@   loop 1 invariant forall p Int :: 0 <= p && p < $i && matchK($coll[p], K, ci, pm) ==> (exists q Int :: 0 <= q && q < len(documents) && documents[q] == docOf(X[$coll[p]]))
+//@   loop 1 invariant forall p Int :: 0 <= p && p < len($coll) ==> ($coll[p] in X)
+//@   loop 1 invariant forall k Str :: (k in X) ==> (exists p Int :: 0 <= p && p < len($coll) && $coll[p] == k)
+//@   ensures result1 == nil ==> (forall k Str :: (k in X) && matchK(k, K, ci, pm) ==> (exists q Int :: 0 <= q && q < len(result) && result[q] == docOf(X[k])))
+//@   ensures result1 == nil ==> (forall q Int :: 0 <= q && q < len(result) ==> (exists k Str :: (k in X) && matchK(k, K, ci, pm) && result[q] == docOf(X[k])))
+
+// Query: exactly the documents of the current view that the (deterministic) predicate accepts.
+//@ spec func filterOK(doc Iface) Bool
+//@ extern param:(*orbitDBDocumentStore).Query.filter as filter(doc) (ok, err)
+//@   ensures err == nil ==> ok == filterOK(doc)
+//@   modifies nothing
+//@ func (*orbitDBDocumentStore).Query
+//@   props C07
+//@   flag nilcalls
+//@   requires o.docOpts != nil && typeis(o.BaseStore.index, "*documentstore.documentIndex") && ref(o.BaseStore.index) != 0
+//@   ghost X := ptr(o.BaseStore.index, "documentstore.documentIndex").index
+//@   loop 1 invariant forall q Int :: 0 <= q && q < len(documents) ==> (exists p Int :: 0 <= p && p < $i && filterOK(docOf(X[$coll[p]])) && documents[q] == docOf(X[$coll[p]]))
+//@   loop 1 invariant forall p Int :: 0 <= p && p < $i && filterOK(docOf(X[$coll[p]])) ==> (exists q Int :: 0 <= q && q < len(documents) && documents[q] == docOf(X[$coll[p]]))
+//@   loop 1 invariant forall p Int :: 0 <= p && p < len($coll) ==> ($coll[p] in X)
+//@   loop 1 invariant forall k Str :: (k in X) ==> (exists p Int :: 0 <= p && p < len($coll) && $coll[p] == k)
+//@   ensures result1 == nil ==> (forall k Str :: (k in X) && filterOK(docOf(X[k])) ==> (exists q Int :: 0 <= q && q < len(result) && result[q] == docOf(X[k])))
+//@   ensures result1 == nil ==> (forall q Int :: 0 <= q && q < len(result) ==> (exists k Str :: (k in X) && filterOK(docOf(X[k])) && result[q] == docOf(X[k])))
